@@ -36,6 +36,9 @@ structure Core (P : Nat → Prop) (s : Sketch Rat) (M : Rat) (K : Nat) : Prop wh
   rho : s.rho = min (1 / M) ((K : Rat) / s.cumWt)
   c : s.sample.c = s.rho * s.cumWt
 
+theorem Core.mono {Q : Nat → Prop} {s : Sketch Rat} {M : Rat} {K : Nat} (hPQ : ∀ x, P x → Q x) (h : Core P s M K) :
+    Core Q s M K := ⟨h.sinv.mono hPQ, h.wpos, h.mpos, h.kpos, h.rho, h.c⟩
+
 theorem Core.rho_pos {s : Sketch Rat} {M : Rat} {K : Nat} (h : Core P s M K) : 0 < s.rho := by
   rw [h.rho]
   have hk : (0 : Rat) < K := by exact_mod_cast h.kpos
@@ -162,6 +165,11 @@ inductive WF (P : Nat → Prop) (s : Sketch Rat) : Prop
 
 theorem wf_fresh {k : Nat} (hk : 1 ≤ k) : WF P (Sketch.fresh k : Sketch Rat) :=
   WF.fresh hk (by simp [Sketch.fresh]) rfl (by simp [Sketch.fresh]) (by simp [Sketch.fresh, Sample.empty]) sinv_empty
+
+theorem WF.mono {Q : Nat → Prop} {s : Sketch Rat} (hPQ : ∀ x, P x → Q x) (h : WF P s) : WF Q s := by
+  cases h with
+  | fresh a b c d e f => exact WF.fresh a b c d e (f.mono hPQ)
+  | live a b c d => exact WF.live a (b.mono hPQ) c d
 
 theorem WF.kpos {s : Sketch Rat} (h : WF P s) : 1 ≤ s.k := by cases h <;> assumption
 
